@@ -69,6 +69,18 @@ class FakeReader(io.BufferedReader):
         return self._sbx_name
 
 
+class FakeRandom(io.BufferedRandom):
+    """an open binary file handle in an update mode ('r+b', 'w+b'): io.BufferedRandom, not io.BufferedReader"""
+
+    def __init__(self, name):
+        super().__init__(io.BytesIO(b''))
+        self._sbx_name = name
+
+    @property
+    def name(self):
+        return self._sbx_name
+
+
 class FakeWriter:
     """file object handed to tofile(): collects what is written"""
 
@@ -113,10 +125,10 @@ def make_file(K, name, nbytes, concrete=None):
     return fn, raw
 
 
-def open_handle(K, fn):
+def open_handle(K, fn, mode='rb'):
     if K.symbolic:
-        return FakeReader(fn)
-    return open(fn, 'rb')
+        return FakeReader(fn) if mode == 'rb' else FakeRandom(fn)
+    return open(fn, mode)
 
 
 def cleanup():
